@@ -687,6 +687,10 @@ def wrapper_scenario(kind, v):
     sched.install_locks()
     d = env.new_dir('wr')
     viol = []
+    if v[0] == 'blobfault':
+        iolog.install()
+        iolog.LOG.reset(d, 8192)
+        iolog.LOG.recording = True
     s = mk_wrapper(kind, d)
     blob = kind[0] == 'B'
     label = ':'.join(str(x) for x in v)
@@ -759,6 +763,46 @@ def wrapper_scenario(kind, v):
                                     blobfile(22), '', t)
                 if phase == 'vote':
                     s.tpc_vote(t)
+                s.tpc_abort(t)
+            elif kindv == 'blobfault':
+                # one injected failure at the n-th mutating file-system
+                # operation of begin + store + 2 blob stores + vote; with
+                # xdev the files handed in live on another file system
+                # (rename into the blob directory answers EXDEV, the
+                # storage copies instead)
+                _, n, xdev = v
+                real_rename = iolog.OsProxy.rename
+                if xdev:
+                    import errno
+
+                    def rename(self, a, b):
+                        if b.endswith('.blob') and not a.endswith('.blob'):
+                            raise OSError(errno.EXDEV, 'scripted: cross-'
+                                          'device link')
+                        return real_rename(self, a, b)
+                    iolog.OsProxy.rename = rename
+                try:
+                    iolog.LOG.arm(n, 0)
+
+                    def victim():
+                        s.tpc_begin(t)
+                        s.store(p64(7), Z64, hclasses.mkrec('P', 7), '', t)
+                        s.storeBlob(p64(8), Z64, hclasses.mkrec('P', 8),
+                                    blobfile(8), '', t)
+                        s.storeBlob(p64(2), tid1, hclasses.mkrec('P', 22),
+                                    blobfile(22), '', t)
+                        s.tpc_vote(t)
+                    r = call(victim)
+                    inj = iolog.LOG.injected
+                finally:
+                    iolog.LOG.disarm()
+                    iolog.OsProxy.rename = real_rename
+                if inj is None:
+                    label = None        # past the last operation
+                elif not isinstance(r, Exc) and inj[0] != 'rename':
+                    # (a rename that fails is made up for by a copy)
+                    bad('fault', 'blob:swallowed:%s' % inj[0],
+                        dict(injected=repr(inj)[:200]))
                 s.tpc_abort(t)
             elif kindv == 'longmeta':
                 big = b'x' * 65536
@@ -900,7 +944,22 @@ def wrapper_scenario(kind, v):
             s.close()
         except Exception:
             pass
+        if v[0] == 'blobfault':
+            iolog.LOG.recording = False
         env.rm_dir(d)
+
+
+def _victims_with_faults(kind):
+    for v in wrapper_victims(kind):
+        yield v
+    if kind[0] == 'B':
+        for xdev in (False, True):
+            n = 0
+            while True:
+                more = yield ('blobfault', n, xdev)
+                if more is False or n > 400:
+                    break
+                n += 1
 
 
 def wrapper_task(kind):
@@ -908,22 +967,36 @@ def wrapper_task(kind):
     env.install()
     res = schedx._new_res()
     seen = set()
-    for v in wrapper_victims(kind):
+    gen = _victims_with_faults(kind)
+    v = next(gen, None)
+    while v is not None:
         label, viol = wrapper_scenario(kind, v)
-        res['cov']['traces_validated_against_impl'] += 1
-        res['cov']['states'] += 1
-        res['cov']['transitions'] += 4
-        res['cov']['evaluations'] += 1
-        res['outcomes']['wrapper:' + v[0]] = \
-            res['outcomes'].get('wrapper:' + v[0], 0) + 1
-        for c, sg, dd in viol:
-            fs = 'C05.%s:%s' % (c, sg)
-            if fs not in seen:
-                seen.add(fs)
-                res['violations'].append((
-                    'C05.' + c, fs, dict(wrapper=dict(
-                        kind=kind, victim=list(v))), dd, 1))
+        try:
+            v_next = gen.send(label is not None)
+        except StopIteration:
+            v_next = None
+        v, v_prev = v_next, v
+        if label is None:
+            continue        # fault index past the end: not a scenario
+        v0 = v_prev
+        _count_wrapper(res, seen, kind, v0, viol)
     return res
+
+
+def _count_wrapper(res, seen, kind, v, viol):
+    res['cov']['traces_validated_against_impl'] += 1
+    res['cov']['states'] += 1
+    res['cov']['transitions'] += 4
+    res['cov']['evaluations'] += 1
+    res['outcomes']['wrapper:' + v[0]] = \
+        res['outcomes'].get('wrapper:' + v[0], 0) + 1
+    for c, sg, dd in viol:
+        fs = 'C05.%s:%s' % (c, sg)
+        if fs not in seen:
+            seen.add(fs)
+            res['violations'].append((
+                'C05.' + c, fs, dict(wrapper=dict(
+                    kind=kind, victim=list(v))), dd, 1))
 
 
 def run(rep, tier, seed, workers):
